@@ -22,10 +22,15 @@ import (
 //
 // The real store (stores.New) with its GC goroutine (Start) runs inside a
 // synctest bubble; adds also go through eligiblePostProcessor.PostProcess and
-// removals through RemoveFromStagingHook.RunHook.  The TTL and the GC interval
-// are unexported package variables: they are *measured* once per run by
-// black-box probing in virtual time (c10Calibrate) and passed to the model,
-// which cross-checks them against the extracted constants.
+// removals through RemoveFromStagingHook.RunHook.  The TTL is an unexported
+// package variable: it is *measured* once per run by black-box probing in
+// virtual time (c10Calibrate) and passed to the model, which cross-checks it
+// against the extracted constant.  Since "fix: result store: an expired, not
+// yet collected entry no longer blocks a new result" the collector cannot be
+// observed through Add/Remove/View any more (Props/C10 gc_transparent), so its
+// interval cannot be measured; the generator aims at the ticks of the interval
+// the design assumes (c10AssumedGCI) and the model takes the extracted constant.
+// A probe (c10DeadEntryBlocks) records whether the pre-fix behaviour is back.
 //
 // Input: a table of results and a list of operations referring to it by index;
 // every operation carries the virtual nanoseconds slept before it.  A "burst"
@@ -44,7 +49,7 @@ type c10Op struct {
 
 type c10Input struct {
 	TTL     int64   `json:"ttl"`     // observed storeTTL (ns)
-	GCI     int64   `json:"gci"`     // observed gcInterval (ns)
+	GCI     int64   `json:"gci"`     // assumed gcInterval (ns): only used to aim time steps at ticks
 	StartDt int64   `json:"startDt"` // virtual ns between bubble start and Start()
 	Res     []JCR   `json:"res"`
 	Ops     []c10Op `json:"ops"`
@@ -239,14 +244,20 @@ func c10Least(lo, hi int64, p func(int64) bool) int64 {
 	return hi
 }
 
-// c10Calibrate measures storeTTL and gcInterval of the code under test in virtual time.
-// A quantity that cannot be measured (no expiry / no collection observed) falls back to the
-// value the design assumes, with a note: the generated cases then show the deviation.
-func c10Calibrate(t *testing.T) (ttl, gci int64, note string) {
-	ttl, gci = int64(5*time.Minute), int64(30*time.Second)
+const c10AssumedGCI = int64(30 * time.Second)
+
+func c10ProbeResults() (hi, lo ocr2keepers.CheckResult) {
 	r := NewRng(99)
 	uid := genUpkeepID(r, false)
-	hi, lo := genResult(r, uid, 10), genResult(r, uid, 5)
+	return genResult(r, uid, 10), genResult(r, uid, 5)
+}
+
+// c10Calibrate measures storeTTL of the code under test in virtual time.  If it cannot be
+// measured (no expiry observed) the value the design assumes is used, with a note: the
+// generated cases then show the deviation.
+func c10Calibrate(t *testing.T) (ttl int64, note string) {
+	ttl = int64(5 * time.Minute)
+	hi, lo := c10ProbeResults()
 	if hi.WorkID != lo.WorkID {
 		t.Fatalf("c10: work id depends on the check block")
 	}
@@ -261,43 +272,27 @@ func c10Calibrate(t *testing.T) (ttl, gci int64, note string) {
 		})
 	}
 	if expired(0) {
-		return ttl, gci, "a result is not viewed 0 ns after Add"
+		return ttl, "a result is not viewed 0 ns after Add"
 	}
 	d := c10Least(0, 1<<55, expired)
 	if d < 0 {
-		return ttl, gci, "no expiry within 2^55 ns"
+		return ttl, "no expiry within 2^55 ns"
 	}
-	ttl = d - 1
-	// collected(a, T): hi added at a, lo handed in at T (> a+ttl): lo is viewed iff a GC tick fell in (a+ttl, T]
-	collected := func(a, T int64) bool {
-		return c10Probe(t, func() bool {
-			st := stores.New(quietLogger)
-			stopped := make(chan struct{})
-			go func() { _ = st.Start(context.Background()); close(stopped) }()
-			synctest.Wait()
-			time.Sleep(time.Duration(a))
-			synctest.Wait()
-			st.Add(hi)
-			time.Sleep(time.Duration(T - a))
-			synctest.Wait()
-			st.Add(lo)
-			v, _ := st.View()
-			_ = st.Close()
-			<-stopped
-			return len(v) == 1 && v[0].Trigger.BlockNumber == lo.Trigger.BlockNumber
-		})
-	}
-	span := int64(1) << 45
-	t1 := c10Least(ttl, ttl+span, func(T int64) bool { return collected(0, T) })
-	if t1 < 0 {
-		return ttl, gci, "no GC tick observed within 2^45 ns after expiry"
-	}
-	a2 := t1 - ttl // added at a2, the tick at t1 sees age == ttl and keeps it
-	t2 := c10Least(t1, t1+span, func(T int64) bool { return collected(a2, T) })
-	if t2 < 0 {
-		return ttl, gci, "second GC tick not observed"
-	}
-	return ttl, t2 - t1, ""
+	return d - 1, ""
+}
+
+// c10DeadEntryBlocks: does an entry one ns past its TTL (collector not started) still reject a
+// lower check block?  true = the behaviour before efb208c.
+func c10DeadEntryBlocks(t *testing.T, ttl int64) bool {
+	hi, lo := c10ProbeResults()
+	return c10Probe(t, func() bool {
+		st := stores.New(quietLogger)
+		st.Add(hi)
+		time.Sleep(time.Duration(ttl + 1))
+		st.Add(lo)
+		v, _ := st.View()
+		return len(v) == 0
+	})
 }
 
 // ---------------------------------------------------------------- generator
@@ -664,7 +659,7 @@ func c10Edge(ttl, gci int64) []c10Input {
 	out := []c10Input{
 		// TTL boundary: age == ttl is still viewed, ttl+1 is not
 		mk(0, add(1, 0), view(ttl-1), view(1), view(1), view(1)),
-		// dead entry still rejects a lower add until the collector ran (the "strong reading" gap)
+		// a dead, not yet collected entry must not reject a lower add (the defect repaired by efb208c); again after the tick
 		mk(0, add(0, 0), add(ttl+1, 2), view(0), add(tickAfterTTL-ttl-1, 2), view(0)),
 		// equal block, different content: the first one stays; higher replaces; lower is ignored
 		mk(7, add(3, 0), add(3, 1), view(0), add(5, 3), view(0), add(5, 2), view(0)),
@@ -693,16 +688,18 @@ func c10Edge(ttl, gci int64) []c10Input {
 func TestC10(t *testing.T) {
 	em := NewEmitter(t, "C10")
 	defer em.Close()
-	ttl, gci, note := c10Calibrate(t)
+	ttl, note := c10Calibrate(t)
+	gci := c10AssumedGCI
 	if note != "" {
 		em.Hit("calibration incomplete: " + note)
 	}
-	if ttl <= 2 || gci <= 2 {
-		t.Fatalf("c10: observed ttl=%d gci=%d: too small to place boundary cases", ttl, gci)
+	if ttl <= 2 {
+		t.Fatalf("c10: observed ttl=%d: too small to place boundary cases", ttl)
 	}
-	em.Hit(fmt.Sprintf("observed ttl=%dns gci=%dns", ttl, gci))
+	em.Hit(fmt.Sprintf("observed ttl=%dns, assumed gci=%dns", ttl, gci))
+	em.Hit(fmt.Sprintf("probe: dead entry blocks a lower add=%v", c10DeadEntryBlocks(t, ttl)))
 	run := func(src string, in c10Input) {
-		in.TTL, in.GCI = ttl, gci // what the code under test shows now (corpus files may be older)
+		in.TTL, in.GCI = ttl, gci // the TTL the code under test shows now (corpus files may be older)
 		synctest.Test(t, func(t *testing.T) { em.Emit(src, in, c10Run(t, in)) })
 	}
 	names, raws, replayOnly := corpusInputs(t, "C10")
